@@ -389,6 +389,7 @@ type ReplayFile struct {
 	History []*Scenario `json:"history,omitempty"`
 	Crash   string      `json:"crash,omitempty"` // process-level failure (fatal error / panic in a detached goroutine)
 	Race    bool        `json:"race,omitempty"`  // needs the -race build
+	Cold    bool        `json:"cold,omitempty"`  // only the first execution of a process shows it: replayed in fresh processes
 }
 
 func findViolation(jd *Judged, prop, rule, sig string) *Violation {
@@ -416,7 +417,11 @@ func replayMode(t *testing.T, job *Job) {
 	if rf.Race {
 		// the race detector's shadow state is not deterministic: repeat the same execution until it reports
 		// (the process ends with the report) or the repetition budget is used up
-		for i := 0; i < 400; i++ {
+		n := 400
+		if rf.Cold {
+			n = 2
+		}
+		for i := 0; i < n; i++ {
 			Exec(t, rf.Scenario)
 		}
 	}
